@@ -26,7 +26,7 @@ type wstep struct {
 
 func (s wstep) String() string {
 	names := []string{"set", "delete", "close", "connerr", "status", "bookmark", "closeafter", "barrier", "sleep", "unknowntype", "errorframe",
-		"drop", "duplicate", "replay", "overflow", "terminating", "nonobject"}
+		"drop", "duplicate", "replay", "overflow", "terminating", "nonobject", "expiredstatus"}
 	name := fmt.Sprint(s.Kind)
 	if s.Kind >= 0 && s.Kind < len(names) {
 		name = names[s.Kind]
@@ -78,6 +78,10 @@ func applyStep(srv *fakeapi.Server, s wstep, errs *int) {
 		srv.Inject(fakeapi.Frame{Type: watch.EventType("WEIRD"), Obj: (&Obj{ID: 9998, Kind: KPod, NS: 0, NM: 1, RV: fmt.Sprint(srv.Version() + 1), Spec: SPod}).Go().(runtime.Object)})
 	case 6:
 		srv.CloseStreamsAfter(s.K)
+	case 17:
+		// the status frame of an expired resume version (410 Gone) in the middle
+		// of a healthy stream: like every status frame it is noted and skipped
+		srv.Inject(fakeapi.Frame{Type: watch.Error, Obj: &metav1.Status{Status: "Failure", Code: 410, Reason: metav1.StatusReasonExpired, Message: "too old resource version"}})
 	case 16:
 		// an ADDED frame whose payload is not an API object at all (an
 		// undecodable body): the session cannot use it; nothing may be lost
@@ -185,6 +189,8 @@ func runC04(c *Ctx) {
 		{{Kind: 5}},
 		{{Kind: 9}},
 		{{Kind: 16}},
+		{{Kind: 17}},
+		{{Kind: 17}, {Kind: 2}},
 		{{Kind: 5}, {Kind: 16}, {Kind: 4}},
 		{{Kind: 6, K: 2}},
 		{{Kind: 2}, {Kind: 8, K: 1500}},
